@@ -1133,6 +1133,7 @@ def rule_entail_guard(ctx: Ctx, prog: Program) -> None:
         if not any(isinstance(n, ast.Name) and n.id == "PROP_ENTAILMENT" for n in ast.walk(fn.node)):
             continue
         it = Interp(prog)
+        it.invariants = True  # cursors of a scan keep their order (needed to tell the scanned rows from the index row)
         try:
             res = it.run(fn)
         except AnalysisError:
